@@ -6,8 +6,9 @@ CONSTANTS
   Extras <- utf8_Extras
   PreSizes <- utf8_Pre
   PreActive <- Zero
-  MaxSteps = 6
+  MaxWrites = 6
   Dev_RawLenTest = TRUE
+  EmitHist = FALSE
 INIT Init
 NEXT Next
 VIEW View
